@@ -31,6 +31,7 @@ func init() {
 		c.rulesR3net()
 		c.rulesR3resolver()
 		c.rulesR4limit(a)
+		c.rulesR7misc("C03")
 		c.rulesR3batch3("C02")
 		// a vetoed state may be dropped from the target (instead of cancelling
 		// the whole transition) only for an Auto state of an auto mutation:
@@ -64,6 +65,7 @@ func init() {
 			c.rulesC04(a, c.lockAnalysis())
 			c.rulesC04dup()
 			c.rulesR5dupset()
+			c.rulesR7misc("C04")
 			c.rulesC04drop()
 			c.rulesR3queue()
 			c.rulesR4qdone()
@@ -126,6 +128,7 @@ func init() {
 			c.rulesC06(a, c.lockAnalysis())
 			c.rulesC06x(a)
 			c.rulesC06reuse()
+			c.rulesR7misc("C06")
 			c.rulesR3subs()
 			c.rulesR4scanall()
 			c.rulesR4qdone()
@@ -153,6 +156,7 @@ func init() {
 			c.rulesR4endsend(c.lockAnalysis())
 			c.rulesR5misc("C13", a)
 			c.rulesR6misc("C13", a)
+			c.rulesR7misc("C13")
 			c.rulesR3misc("C13")
 			c.rulesR3misc("C06") // C06.close: a waiter collected but never closed survives Dispose
 			c.rulesC13send(c.lockAnalysis())
@@ -224,6 +228,7 @@ func init() {
 		c.rulesR5misc("C09", nil)
 		c.rulesC01net() // the mirror's clock map is part of what converges
 		c.rulesR6misc("C09", nil)
+		c.rulesR7misc("C09")
 		c.rulesR3rpc2()
 	})
 	register("C10", propInfo{
@@ -232,6 +237,7 @@ func init() {
 		Trusted:     commonTrusted,
 	}, func(c *Ctx) {
 		c.rulesC10()
+		c.rulesR7misc("C10")
 		c.rulesR3hello()
 		c.rulesC09x()
 	})
@@ -282,6 +288,7 @@ func init() {
 		Trusted:     commonTrusted,
 	}, func(c *Ctx) {
 		c.rulesC19()
+		c.rulesR7misc("C19")
 		// necessary conditions of the reachability clause that are visible in the shape of the
 		// resolver (the transition function the clause quantifies over): Require closure applied
 		// last and from every state's missing requirements, Add-implied states passed through a
@@ -328,6 +335,7 @@ func init() {
 	}, func(c *Ctx) {
 		c.rulesC15()
 		c.rulesC15key()
+		c.rulesR7misc("C15")
 		c.rulesR4errmulti()
 		c.rulesR5misc("C15", nil)
 		c.rulesR3batch3("C15")
